@@ -37,6 +37,8 @@ type funcTarget struct {
 	valueOf  string // translate the leading statements up to the first store of this local variable into the receiver's memory and return its value there
 	fragTag  string // fragment mode: translate the first `switch <fragTag>` statement ...
 	fragOut  string // ... as a function of fragTag returning the final value of fragOut
+	state    []string // receiver fields (as f_<path>) whose final values are returned next to the results: stores into them
+	//                   become let-bindings, every return becomes the tuple (results..., state...)
 }
 
 var funcTargets = []funcTarget{
@@ -61,6 +63,8 @@ var funcTargets = []funcTarget{
 	{pkg: "gws", recv: "Conn", name: "doWrite", conds: true},
 	{pkg: "gws", recv: "Conn", name: "emitMessage", conds: true},
 	{pkg: "gws", recv: "Conn", name: "compressData", conds: true},
+	{pkg: "gws", recv: "limitedReader", name: "Read", skeleton: true, state: []string{"f_N"}},
+	{pkg: "gws", recv: "workerQueue", name: "getJob", skeleton: true, state: []string{"f_curConcurrency"}},
 	{pkg: "internal", name: "binaryCeil"},
 	{pkg: "internal", name: "ToBinaryNumber"},
 	{pkg: "internal", name: "BinaryPow"},
@@ -79,6 +83,43 @@ type ftr struct {
 	free    map[string]string // conds mode: identifiers used in the expression (they become parameters)
 	stopped string // prefix mode: the statement the translation stopped before
 	fset    *token.FileSet
+	results []string // state mode: the named results (v_<name>), in order
+}
+
+// state mode: the tuple returned at a return site
+func (t *ftr) tuple(rs []string) string {
+	all := append([]string{}, rs...)
+	for _, f := range t.tgt.state {
+		if _, ok := t.params[f]; !ok {
+			t.params[f] = "Z"
+		}
+		all = append(all, f)
+	}
+	return "(" + strings.Join(all, ", ") + ")"
+}
+
+// the let-bound name an assignment writes: a local, or (state mode) a field of the receiver
+func (t *ftr) lhsName(e ast.Expr) (string, bool) {
+	if id, ok := e.(*ast.Ident); ok {
+		return "v_" + id.Name, true
+	}
+	if len(t.tgt.state) > 0 {
+		if p, ok := t.recvPath(e); ok && p != "" {
+			name := "f_" + p
+			if _, ok := t.params[name]; !ok {
+				t.params[name] = gtype(t.info.TypeOf(e))
+			}
+			return name, true
+		}
+	}
+	return "", false
+}
+
+// skeleton mode: the result of a call outside the subset is an input i_<name>, bound to the variable at this point
+func (t *ftr) inputFor(id *ast.Ident) string {
+	name := "i_" + id.Name
+	t.params[name] = gtype(t.info.TypeOf(id))
+	return name
 }
 
 // generated functions so far: key "pkg.Recv.name" -> (Gallina name, receiver-derived parameter names in order)
@@ -376,6 +417,16 @@ func (t *ftr) stmts(list []ast.Stmt, k string) string {
 	rest := func() string { return t.stmts(list[1:], k) }
 	switch s := list[0].(type) {
 	case *ast.ReturnStmt:
+		if len(t.tgt.state) > 0 {
+			if len(s.Results) == 0 {
+				return t.tuple(t.results)
+			}
+			var rs []string
+			for _, r := range s.Results {
+				rs = append(rs, t.expr(r))
+			}
+			return t.tuple(rs)
+		}
 		if len(s.Results) == 1 {
 			if call, ok := s.Results[0].(*ast.CallExpr); ok && t.tgt.skeleton {
 				// `return c.other()`: a tail call into code outside the subset - marked -1 unless it can be translated
@@ -446,7 +497,7 @@ func (t *ftr) stmts(list []ast.Stmt, k string) string {
 		}
 		return out
 	case *ast.IncDecStmt:
-		id, ok := s.X.(*ast.Ident)
+		ln, ok := t.lhsName(s.X)
 		if !ok {
 			if t.tgt.skeleton {
 				return rest()
@@ -457,7 +508,7 @@ func (t *ftr) stmts(list []ast.Stmt, k string) string {
 		if s.Tok == token.DEC {
 			op = "-"
 		}
-		return fmt.Sprintf("(let v_%s := %s in\n   %s)", id.Name, t.wrap(fmt.Sprintf("(v_%s %s 1)", id.Name, op), t.info.TypeOf(id)), rest())
+		return fmt.Sprintf("(let %s := %s in\n   %s)", ln, t.wrap(fmt.Sprintf("(%s %s 1)", ln, op), t.info.TypeOf(s.X)), rest())
 	case *ast.AssignStmt:
 		if len(s.Lhs) != 1 || len(s.Rhs) != 1 {
 			if t.tgt.skeleton && s.Tok == token.DEFINE && len(s.Rhs) == 1 {
@@ -469,33 +520,54 @@ func (t *ftr) stmts(list []ast.Stmt, k string) string {
 				}
 				return rest()
 			}
+			if _, isCall := s.Rhs[0].(*ast.CallExpr); t.tgt.skeleton && s.Tok == token.ASSIGN && len(s.Rhs) == 1 && isCall {
+				// `a, err = call(...)` into existing variables: fresh inputs bound at this point
+				out := rest()
+				for i := len(s.Lhs) - 1; i >= 0; i-- {
+					if id, ok := s.Lhs[i].(*ast.Ident); ok && id.Name != "_" {
+						out = fmt.Sprintf("(let v_%s := %s in\n   %s)", id.Name, t.inputFor(id), out)
+					}
+				}
+				return out
+			}
 			return t.fail("multiple assignment")
 		}
-		id, ok := s.Lhs[0].(*ast.Ident)
+		lname, ok := t.lhsName(s.Lhs[0])
 		if !ok {
 			if t.tgt.skeleton {
 				return rest() // a store into the receiver's memory: not part of the skeleton
 			}
 			return t.fail("assignment to a non-identifier")
 		}
-		if id.Name == "_" {
+		if lname == "v__" {
 			return rest()
 		}
 		var rhs string
-		ty := t.info.TypeOf(id)
+		ty := t.info.TypeOf(s.Lhs[0])
 		if ty == nil {
 			ty = t.info.TypeOf(s.Rhs[0])
 		}
 		switch s.Tok {
 		case token.ASSIGN, token.DEFINE:
+			if id, isId := s.Lhs[0].(*ast.Ident); isId && t.tgt.skeleton && len(t.tgt.state) > 0 {
+				if _, isCall := s.Rhs[0].(*ast.CallExpr); isCall {
+					save := t.err
+					rhs = t.expr(s.Rhs[0])
+					if t.err != save {
+						t.err = save
+						rhs = t.inputFor(id)
+					}
+					break
+				}
+			}
 			rhs = t.expr(s.Rhs[0])
 		default:
 			ops := map[token.Token]string{token.ADD_ASSIGN: "+", token.SUB_ASSIGN: "-", token.MUL_ASSIGN: "*"}
 			fns := map[token.Token]string{token.OR_ASSIGN: "Z.lor", token.AND_ASSIGN: "Z.land", token.XOR_ASSIGN: "Z.lxor", token.SHL_ASSIGN: "Z.shiftl", token.SHR_ASSIGN: "Z.shiftr"}
 			if o, ok := ops[s.Tok]; ok {
-				rhs = t.wrap(fmt.Sprintf("(v_%s %s %s)", id.Name, o, t.expr(s.Rhs[0])), ty)
+				rhs = t.wrap(fmt.Sprintf("(%s %s %s)", lname, o, t.expr(s.Rhs[0])), ty)
 			} else if f, ok := fns[s.Tok]; ok {
-				rhs = fmt.Sprintf("(%s v_%s %s)", f, id.Name, t.expr(s.Rhs[0]))
+				rhs = fmt.Sprintf("(%s %s %s)", f, lname, t.expr(s.Rhs[0]))
 				if s.Tok == token.SHL_ASSIGN {
 					rhs = t.wrap(rhs, ty)
 				}
@@ -503,7 +575,7 @@ func (t *ftr) stmts(list []ast.Stmt, k string) string {
 				return t.fail("unsupported assignment operator %s", s.Tok)
 			}
 		}
-		return fmt.Sprintf("(let v_%s := %s in\n   %s)", id.Name, rhs, rest())
+		return fmt.Sprintf("(let %s := %s in\n   %s)", lname, rhs, rest())
 	case *ast.DeclStmt:
 		gd, ok := s.Decl.(*ast.GenDecl)
 		if !ok || gd.Tok != token.VAR {
@@ -521,7 +593,18 @@ func (t *ftr) stmts(list []ast.Stmt, k string) string {
 			if _, isArr := t.info.TypeOf(vs.Names[0]).Underlying().(*types.Array); isArr {
 				continue
 			}
-			out = fmt.Sprintf("(let v_%s := %s in\n   %s)", vs.Names[0].Name, t.expr(vs.Values[0]), out)
+			val := ""
+			if _, isCall := vs.Values[0].(*ast.CallExpr); isCall && t.tgt.skeleton && len(t.tgt.state) > 0 {
+				save := t.err
+				val = t.expr(vs.Values[0])
+				if t.err != save {
+					t.err = save
+					val = t.inputFor(vs.Names[0])
+				}
+			} else {
+				val = t.expr(vs.Values[0])
+			}
+			out = fmt.Sprintf("(let v_%s := %s in\n   %s)", vs.Names[0].Name, val, out)
 		}
 		return out
 	case *ast.ExprStmt:
@@ -529,6 +612,11 @@ func (t *ftr) stmts(list []ast.Stmt, k string) string {
 			return rest()
 		}
 		return t.fail("expression statement")
+	case *ast.DeferStmt:
+		if t.tgt.skeleton && len(t.tgt.state) > 0 {
+			return rest() // a deferred unlock: no effect on the values
+		}
+		return t.fail("defer")
 	case *ast.ForStmt:
 		if s.Init != nil {
 			noInit := *s
@@ -738,6 +826,21 @@ func genFuncs(pkgs []*packages.Package) string {
 			if named {
 				k = "v_" + fd.Type.Results.List[0].Names[0].Name
 			}
+			if len(tg.state) > 0 {
+				named = false
+				if fd.Type.Results != nil {
+					for _, f := range fd.Type.Results.List {
+						for _, n := range f.Names {
+							t.results = append(t.results, "v_"+n.Name)
+						}
+					}
+				}
+				if len(t.results) > 0 {
+					k = t.tuple(t.results)
+				} else {
+					k = t.tuple([]string{"0"})
+				}
+			}
 			list := fd.Body.List
 			if tg.valueOf != "" {
 				// statements up to `<receiver memory> = <valueOf>`; the value of the variable at that point is the result
@@ -779,6 +882,9 @@ func genFuncs(pkgs []*packages.Package) string {
 			}
 			if named {
 				body = fmt.Sprintf("(let %s := 0 in\n   %s)", k, body)
+			}
+			for i := len(t.results) - 1; i >= 0; i-- {
+				body = fmt.Sprintf("(let %s := 0 in\n   %s)", t.results[i], body)
 			}
 		}
 		if t.err != "" {
